@@ -33,6 +33,9 @@ pub struct Case {
     /// request carries an empty prf object; 3 default authenticator, request asks credProps + prf
     #[serde(default)]
     pub ext: u8,
+    /// order in which the authenticator's configuration is applied (common::AuthCfg::order)
+    #[serde(default)]
+    pub order: u8,
 }
 
 pub fn alg_list(n: u8) -> (Vec<webauthn::PublicKeyCredentialParameters>, bool) {
@@ -64,7 +67,7 @@ pub fn users() -> Vec<(Vec<u8>, String)> {
 }
 
 fn base() -> Case {
-    Case { challenge: challenges()[5].clone(), user: 1, org: Org::HostIsRp, algs: 1, mode: Mode::Default, counter: false, memory_store: false, id_len: None, rk: true, decor: false, ext: 0 }
+    Case { challenge: challenges()[5].clone(), user: 1, org: Org::HostIsRp, algs: 1, mode: Mode::Default, counter: false, memory_store: false, id_len: None, rk: true, decor: false, ext: 0, order: 0 }
 }
 
 pub fn cases(tier: Tier) -> Vec<Case> {
@@ -77,7 +80,7 @@ pub fn cases(tier: Tier) -> Vec<Case> {
                 for mode in MODES {
                     for counter in [false, true] {
                         for memory_store in [false, true] {
-                            v.push(Case { challenge: ch.clone(), user: ((ch.len() + algs as usize) % 4) as u8, org, algs, mode, counter, memory_store, id_len: None, rk: true, decor: (ch.len() + algs as usize) % 2 == 1, ext: 0 });
+                            v.push(Case { challenge: ch.clone(), user: ((ch.len() + algs as usize) % 4) as u8, org, algs, mode, counter, memory_store, id_len: None, rk: true, decor: (ch.len() + algs as usize) % 2 == 1, ext: 0, order: 0 });
                         }
                     }
                 }
@@ -102,6 +105,16 @@ pub fn cases(tier: Tier) -> Vec<Case> {
     for n in 0..=255u8 {
         v.push(Case { id_len: Some(n), ..base() });
         v.push(Case { id_len: Some(n), memory_store: true, counter: true, ext: 1 + n % 3, ..base() });
+        // the same configuration applied in the other orders (builder first; transports builder last)
+        if matches!(n, 0 | 16 | 17 | 32 | 40 | 64 | 65 | 255) {
+            for order in 1..4u8 {
+                for ext in 0..4u8 {
+                    for counter in [false, true] {
+                        v.push(Case { id_len: Some(n), counter, ext, order, ..base() });
+                    }
+                }
+            }
+        }
         if tier == Tier::Thorough {
             for org in ORGS {
                 for mode in MODES {
@@ -123,9 +136,9 @@ pub fn ext_inputs(ext: u8) -> Option<webauthn::AuthenticationExtensionsClientInp
 }
 pub fn ext_cfg(ext: u8, counter: bool, id_len: Option<u8>) -> AuthCfg {
     match ext {
-        1 => AuthCfg { counter, id_len, hmac: 2, hmac_mc: true },
-        2 => AuthCfg { counter, id_len, hmac: 1, hmac_mc: false },
-        _ => AuthCfg { counter, id_len, hmac: 0, hmac_mc: false },
+        1 => AuthCfg { counter, id_len, hmac: 2, hmac_mc: true, order: 0 },
+        2 => AuthCfg { counter, id_len, hmac: 1, hmac_mc: false, order: 0 },
+        _ => AuthCfg { counter, id_len, hmac: 0, hmac_mc: false, order: 0 },
     }
 }
 
@@ -251,7 +264,7 @@ pub fn eval(c: &Case) -> (Vec<Finding>, String) {
     let log = Log::new();
     let uv = ScriptedUv::consenting(log.clone());
     let seeds = vec![seeded(&Seed { n: 1, rp: c.org.rp(), handle: Some(vec![1]), counter: Some(3), hmac: None }), seeded(&Seed { n: 2, rp: "other.org".into(), handle: Some(vec![2]), counter: None, hmac: None })];
-    let tweak = &ext_cfg(c.ext, c.counter, c.id_len);
+    let tweak = &AuthCfg { order: c.order, ..ext_cfg(c.ext, c.counter, c.id_len) };
     let rc = if c.memory_store {
         let mut m = MemoryStore::new();
         for s in seeds {
